@@ -13,6 +13,7 @@ before an error stay (Go mutates in place), which is why the monad is `ExceptT` 
 elements; they are `none` here and touching one is the host panic it is in Go.
 -/
 import ZygoVerif.Model.Gen
+import ZygoVerif.Model.LazySrc
 namespace ZygoVerif.VM
 open ZygoVerif.Core
 
@@ -27,6 +28,7 @@ structure LazyObj where
   stack : List (Option Nat)
   curfunc : Nat
   value : Option Val
+  isValue : Bool := false      -- `NewValueLazyArg` (apply/map): `Expr` is the value itself
 deriving Repr, Inhabited
 
 structure St where
@@ -515,6 +517,21 @@ def builtin : Nat → String → List Val → M Val
       | [.lazy id] => forceLazy fuel id
       | [v] => pure v
       | _ => err
+    else if name = "substitute" then
+      -- `SubstituteFunction`: the expression as parsed, never evaluated
+      match args with
+      | [.lazy id] => do
+        let s ← get
+        match s.lazies[id]? with
+        | none => err
+        | some lz =>
+          if lz.isValue then pure (lz.value.getD .nil)
+          else
+            let (v, h) := quoteE lz.e s.heap
+            set { s with heap := h }
+            pure v
+      | [v] => pure v
+      | _ => err
     else if name = "apply" then
       match args with
       | [f, coll] =>
@@ -562,7 +579,7 @@ def applyFn : Nat → Val → List Val → M Val
       -- lazy positions receive already forced lazy objects
       let wrap : St × Nat → Val → St × Nat := fun (s, i) v =>
         if fo.isLazyCallArg i then
-          ({ s with lazies := s.lazies ++ [({ e := .nilLit, stack := [], curfunc := 0, value := some v } : LazyObj)],
+          ({ s with lazies := s.lazies ++ [({ e := .nilLit, stack := [], curfunc := 0, value := some v, isValue := true } : LazyObj)],
                     data := some (.lazy s.lazies.length) :: s.data }, i + 1)
         else ({ s with data := some v :: s.data }, i + 1)
       set (args.foldl wrap (s, 0)).1
